@@ -4,10 +4,10 @@
     (iii) the numbers of the finding guards that fire on the input. *)
 From HV Require Export Base.Prelude C19.Model C19.Proofs.
 
-(** the repairs present in the tree the check runs against (none yet: every
-    finding is open).  When the coordinator applies fixes/C19-Fk.diff as a
-    `fix:` commit, the k-th field becomes [true]. *)
-Definition impl_fixes : fixes := no_fixes.
+(** the repairs present in the tree the check runs against: all of them, since the
+    `fix:` commits bac6229 b43bb0a f8fe9cb 7262936 c263a86 63a8b58 b504821 b69f65b
+    (C19-F1 … F8) and 07a625c (C18-F2).  [no_fixes] is the pinned tree. *)
+Definition impl_fixes : fixes := all_fixes.
 
 Definition memn (l : list nat) (n : nat) : bool := existsb (Nat.eqb n) l.
 Definition mkc id pub subj iss aki ski :=
@@ -127,7 +127,8 @@ Definition rsc proxy def pre op version rules repo_ok obs :=
 
 (** rule ids as a set (the repository's order of rules is C06's business) *)
 Definition subset (a b : list string) : bool := forallb (fun x => existsb (String.eqb x) b) a.
-Definition ids_eqb (a b : list string) : bool := Nat.eqb (length a) (length b) && subset a b && subset b a.
+(* mutual inclusion only: what the repository does with two rules of the same id is C06's business *)
+Definition ids_eqb (a b : list string) : bool := subset a b && subset b a.
 
 Definition rs_out_eqb (a b : rs_out) : bool :=
   match a, b with
@@ -188,4 +189,13 @@ Definition check_req (impl : fixes) (c : qcase) : verdict :=
     {| v_corr := Z.eqb (recovery_mw h) obs;
        v_prop := match h with Panicked _ => negb (success obs) | Answered _ => true end;
        v_guards := [] |}
+  end.
+
+(** ** the three streams without in-package access share one driver binary *)
+Inductive mcase := MK (c : kcase) | MT (c : tcase) | MQ (c : qcase).
+Definition check_misc (impl : fixes) (c : mcase) : verdict :=
+  match c with
+  | MK c => check_ks impl c
+  | MT c => check_ts impl c
+  | MQ c => check_req impl c
   end.
